@@ -19,10 +19,18 @@ pub struct Universe {
     /// keys that only exist as seed fillers (ids nkeys..nkeys+fillers) are not
     /// part of the alphabet
     pub drain_pats: Vec<Vec<bool>>,
+    /// key 0 is inserted in two sizes (equal keys, different size estimates)
+    pub vary_key_heap: bool,
 }
 
 impl Universe {
     pub fn new(nkeys: u16, big_limits: bool) -> Universe {
+        Universe::with_richness(nkeys, big_limits, true)
+    }
+
+    /// rich = false: four value sizes instead of five and one size per key
+    /// (used where the enumeration multiplies every state by every fault point)
+    pub fn with_richness(nkeys: u16, big_limits: bool, rich: bool) -> Universe {
         let e = entry_overhead();
         let mut limits = vec![0, e - 1, e, e + 1, 2 * e + 1, 2 * e + 2, 3 * e + 3];
         if big_limits {
@@ -34,7 +42,8 @@ impl Universe {
         limits.push(usize::MAX);
         Universe {
             nkeys,
-            vheaps: vec![0, 1, 2, 2 * e, HUGE],
+            vheaps: if rich { vec![0, 1, 2, 2 * e, HUGE] } else { vec![0, 1, 2, HUGE] },
+            vary_key_heap: rich,
             limits,
             reserve_args: vec![0, 1, 5, usize::MAX, usize::MAX / 2],
             e,
@@ -48,6 +57,17 @@ impl Universe {
     }
     pub fn key_heap(&self, id: u32) -> usize {
         (id % 2) as usize
+    }
+    /// heap size of the key instance created by insert / try_insert of key
+    /// `id` with value class `h`: equal keys need not have equal size
+    /// estimates (think of two equal Strings with different capacities), so
+    /// key 0 comes in two sizes
+    pub fn ins_key_heap(&self, id: u32, h: u8) -> usize {
+        if id == 0 && self.vary_key_heap {
+            (h % 2) as usize
+        } else {
+            self.key_heap(id)
+        }
     }
 }
 
@@ -404,10 +424,10 @@ impl<'u> Exec<'u> {
     fn apply_inner(&mut self, op: Op) -> Ret {
         let u = self.u;
         match op {
-            Op::Insert { k, h } => self.do_insert(k, u.vheaps[h as usize]),
-            Op::InsertRaw { k, vheap } => self.do_insert(k, vheap as usize),
+            Op::Insert { k, h } => self.do_insert(k, u.ins_key_heap(k as u32, h), u.vheaps[h as usize]),
+            Op::InsertRaw { k, vheap } => self.do_insert(k, u.key_heap(k as u32), vheap as usize),
             Op::TryInsert { k, h } => {
-                let key = TKey::new(k as u32, u.key_heap(k as u32));
+                let key = TKey::new(k as u32, u.ins_key_heap(k as u32, h));
                 let val = TVal::new(u.vheaps[h as usize]);
                 SIDE.with(|s| {
                     let mut s = s.borrow_mut();
@@ -699,9 +719,8 @@ impl<'u> Exec<'u> {
         }
     }
 
-    fn do_insert(&mut self, k: u16, vheap: usize) -> Ret {
-        let u = self.u;
-        let key = TKey::new(k as u32, u.key_heap(k as u32));
+    fn do_insert(&mut self, k: u16, kheap: usize, vheap: usize) -> Ret {
+        let key = TKey::new(k as u32, kheap);
         let val = TVal::new(vheap);
         SIDE.with(|s| {
             let mut s = s.borrow_mut();
